@@ -1,11 +1,577 @@
-// Package c02 is the correspondence/oracle harness for property C02.
+// Package c02: no input can crash, hang or exhaust the process.
+//
+// Valid documents from the harness writers are damaged by a fixed catalogue of
+// structural faults (and by byte mutation); every public entry point must then
+// return a value or an error within a deadline and a memory limit, without
+// panicking.
 package c02
 
-import "verifharness/hx"
+import (
+	"bytes"
+	"fmt"
+	"os"
+	"path/filepath"
+	"regexp"
+	"strings"
+
+	"github.com/tsawler/tabula"
+	"github.com/tsawler/tabula/contentstream"
+	"github.com/tsawler/tabula/core"
+	"github.com/tsawler/tabula/font"
+
+	"verifharness/hx"
+	"verifharness/writers"
+)
 
 func init() { hx.Register("C02", Run, Replay) }
 
-// Run is not built yet for this property.
-func Run(c *hx.Ctx) { c.Note("C02: harness not built") }
+// fault is one entry of the catalogue applied to one site of one document.
+type fault struct {
+	Kind    string `json:"kind"`    // number | ref | delim | drop | dup | data-flip | data-trunc | length | xref-entry | xref-w | xref-prev | xref-size | truncate | byte
+	Ordinal int    `json:"ordinal"` // object / xref-section ordinal in writing order
+	Site    int    `json:"site"`    // index of the token inside the object text
+	Value   string `json:"value"`   // replacement
+}
 
-func Replay(c *hx.Ctx, kase map[string]interface{}) {}
+type kase struct {
+	Format string         `json:"format"`
+	Doc    int            `json:"doc"`    // document index in the seed's stream
+	Seed   uint64         `json:"seed"`   // generator seed of the document
+	Faults []fault        `json:"faults"` // applied in order (single or double)
+	Layout writers.Layout `json:"layout"`
+}
+
+var numRe = regexp.MustCompile(`(^|[\s\[\(<>/])(\d+)(?:\b)`)
+var refRe = regexp.MustCompile(`\b(\d+) 0 R\b`)
+var delims = []string{"<<", ">>", "[", "]", "(", ")"}
+
+var numValues = []string{"0", "-1", "2147483648", "9223372036854775807"}
+
+// sites counts the fault sites of each kind in a piece of object text.
+func numSites(s string) [][]int { return numRe.FindAllStringSubmatchIndex(s, -1) }
+
+func applyText(s string, f fault) string {
+	switch f.Kind {
+	case "number":
+		m := numSites(s)
+		if f.Site < len(m) {
+			return s[:m[f.Site][4]] + f.Value + s[m[f.Site][5]:]
+		}
+	case "ref":
+		m := refRe.FindAllStringSubmatchIndex(s, -1)
+		if f.Site < len(m) {
+			return s[:m[f.Site][2]] + f.Value + s[m[f.Site][3]:]
+		}
+	case "delim":
+		// f.Value = delimiter to remove; Site = n-th occurrence
+		idx, from := -1, 0
+		for k := 0; k <= f.Site; k++ {
+			j := strings.Index(s[from:], f.Value)
+			if j < 0 {
+				return s
+			}
+			idx = from + j
+			from = idx + len(f.Value)
+		}
+		return s[:idx] + s[idx+len(f.Value):]
+	case "delim-add":
+		m := numSites(s)
+		if f.Site < len(m) {
+			return s[:m[f.Site][4]] + f.Value + s[m[f.Site][4]:]
+		}
+		return f.Value + s
+	}
+	return s
+}
+
+// survey renders the document once and records, per object ordinal, how many
+// sites of each kind it offers.
+type siteInfo struct {
+	ordinal              int
+	stream               bool
+	nums, refs           int
+	delimCount           map[string]int
+	dataLen              int
+	num                  int
+}
+
+func render(doc writers.LDoc, lay writers.Layout, faults []fault) ([]byte, []siteInfo, int) {
+	var info []siteInfo
+	lay.ObjHook = func(o *writers.RawObj) {
+		text := o.Body
+		if o.Stream {
+			text = o.Dict
+		}
+		si := siteInfo{ordinal: o.Ordinal, stream: o.Stream, nums: len(numSites(text)), refs: len(refRe.FindAllString(text, -1)), delimCount: map[string]int{}, dataLen: len(o.Data), num: o.Num}
+		for _, d := range delims {
+			si.delimCount[d] = strings.Count(text, d)
+		}
+		info = append(info, si)
+		for _, f := range faults {
+			if f.Ordinal != o.Ordinal {
+				continue
+			}
+			switch f.Kind {
+			case "number", "ref", "delim", "delim-add":
+				if o.Stream {
+					o.Dict = applyText(o.Dict, f)
+				} else {
+					o.Body = applyText(o.Body, f)
+				}
+			case "drop":
+				o.Drop = true
+			case "dup":
+				o.Twice = true
+			case "data-flip":
+				if o.Stream && len(o.Data) > 0 {
+					d := append([]byte(nil), o.Data...)
+					for k := 0; k < 3; k++ {
+						d[(f.Site*7919+k*104729)%len(d)] ^= byte(1 << uint((f.Site+k)%8))
+					}
+					o.Data = d
+				}
+			case "data-trunc":
+				if o.Stream && len(o.Data) > 0 {
+					o.Data = o.Data[:f.Site%len(o.Data)]
+				}
+			case "length":
+				if o.Stream {
+					o.LengthOverride = f.Value
+				}
+			}
+		}
+	}
+	nx := 0
+	lay.XrefHook = func(x *writers.RawXref) {
+		nx++
+		for _, f := range faults {
+			if f.Ordinal != x.Ordinal {
+				continue
+			}
+			switch f.Kind {
+			case "xref-entry":
+				// retarget the Site-th entry: offset := Value
+				i := 0
+				for _, n := range sortedKeys(x.Entries) {
+					if n == 0 {
+						continue
+					}
+					if i == f.Site {
+						e := x.Entries[n]
+						var v int64
+						fmt.Sscan(f.Value, &v)
+						e.F1 = v
+						x.Entries[n] = e
+					}
+					i++
+				}
+			case "xref-w":
+				fmt.Sscanf(f.Value, "%d,%d,%d", &x.W[0], &x.W[1], &x.W[2])
+			case "xref-prev":
+				var v int64
+				fmt.Sscan(f.Value, &v)
+				x.Prev = v
+			case "xref-size":
+				fmt.Sscan(f.Value, &x.Size)
+			case "xref-trailer":
+				x.Trailer = f.Value
+			}
+		}
+	}
+	data := writers.RenderPDF(doc, lay).Data
+	for _, f := range faults {
+		switch f.Kind {
+		case "truncate":
+			if f.Site < len(data) {
+				data = data[:f.Site]
+			}
+		case "byte":
+			if len(data) > 0 {
+				data = append([]byte(nil), data...)
+				var v int
+				fmt.Sscan(f.Value, &v)
+				data[f.Site%len(data)] = byte(v)
+			}
+		case "replace-text":
+			// Value = "old=>new", Site = n-th occurrence
+			parts := strings.SplitN(f.Value, "=>", 2)
+			if len(parts) == 2 {
+				data = replaceNth(data, []byte(parts[0]), []byte(parts[1]), f.Site)
+			}
+		}
+	}
+	return data, info, nx
+}
+
+func replaceNth(data, old, new []byte, n int) []byte {
+	from := 0
+	for k := 0; ; k++ {
+		j := bytes.Index(data[from:], old)
+		if j < 0 {
+			return data
+		}
+		if k == n {
+			out := append([]byte(nil), data[:from+j]...)
+			out = append(out, new...)
+			return append(out, data[from+j+len(old):]...)
+		}
+		from += j + len(old)
+	}
+}
+
+func sortedKeys(m map[int]writers.XEntry) []int {
+	ks := make([]int, 0, len(m))
+	for k := range m {
+		ks = append(ks, k)
+	}
+	for i := 1; i < len(ks); i++ {
+		for j := i; j > 0 && ks[j] < ks[j-1]; j-- {
+			ks[j], ks[j-1] = ks[j-1], ks[j]
+		}
+	}
+	return ks
+}
+
+// entry points exercised on every damaged file
+func exercise(c *hx.Ctx, k kase, path string, data []byte) {
+	c.Current(k)
+	calls := []struct {
+		name string
+		f    func()
+	}{
+		{"Text", func() { tabula.Open(path).Text() }},
+		{"PageCount+Fragments", func() {
+			e := tabula.Open(path)
+			e.PageCount()
+			e.Fragments()
+		}},
+		{"ToMarkdown", func() { tabula.Open(path).ToMarkdown() }},
+		{"Document+Chunks", func() {
+			tabula.Open(path).Document()
+			tabula.Open(path).Chunks()
+		}},
+		{"Analyze", func() { tabula.Open(path).Analyze() }},
+	}
+	for _, call := range calls {
+		c.Guard("C02/"+k.Format+"-"+call.name, k, 10, call.f)
+		c.Rep.OracleChecks++
+	}
+}
+
+func genLayout(r *hx.Rng) writers.Layout {
+	return writers.Layout{
+		EOL: "\n", XrefStream: r.Bool(), ObjStm: r.Chance(1, 3), LengthMode: r.Intn(3), Split: r.Range(1, 2), SplitWS: true,
+		Depth: r.Intn(3), Revisions: r.Intn(2), Filters: r.Intn(4), Seed: r.U64(),
+	}
+}
+
+func genDoc(r *hx.Rng) writers.LDoc {
+	var d writers.LDoc
+	for p := r.Range(1, 3); p > 0; p-- {
+		var pg writers.LPage
+		for l := r.Range(1, 3); l > 0; l-- {
+			pg.Lines = append(pg.Lines, writers.LLine{Font: r.Intn(2), Text: hx.Pick(r, []string{"alpha beta", "γδ 日本", "x(y)z", "end"})})
+		}
+		d.Pages = append(d.Pages, pg)
+	}
+	return d
+}
+
+func docFor(seed uint64) (writers.LDoc, writers.Layout) {
+	r := hx.NewRng(seed)
+	return genDoc(r), genLayout(r)
+}
+
+func runPDF(c *hx.Ctx, k kase, tag string) {
+	doc, _ := docFor(k.Seed)
+	data, _, _ := render(doc, k.Layout, k.Faults)
+	path := filepath.Join(c.OutDir, "c02-"+tag+".pdf")
+	os.WriteFile(path, data, 0o644)
+	defer os.Remove(path)
+	exercise(c, k, path, data)
+	kinds := ""
+	for _, f := range k.Faults {
+		kinds += f.Kind + "+"
+		c.Count("pdf-" + f.Kind)
+	}
+	c.Case(fmt.Sprint(k.Seed, k.Faults), true)
+}
+
+// pdfCatalogue enumerates all single faults of one document.
+func pdfCatalogue(doc writers.LDoc, lay writers.Layout) []fault {
+	data, info, nx := render(doc, lay, nil)
+	var out []fault
+	for _, si := range info {
+		for s := 0; s < si.nums; s++ {
+			for _, v := range numValues {
+				out = append(out, fault{Kind: "number", Ordinal: si.ordinal, Site: s, Value: v})
+			}
+		}
+		for s := 0; s < si.refs; s++ {
+			for _, v := range []string{fmt.Sprint(si.num), "1", "9999", "0"} {
+				out = append(out, fault{Kind: "ref", Ordinal: si.ordinal, Site: s, Value: v})
+			}
+		}
+		for _, d := range delims {
+			for s := 0; s < si.delimCount[d]; s++ {
+				out = append(out, fault{Kind: "delim", Ordinal: si.ordinal, Site: s, Value: d})
+			}
+		}
+		for _, d := range []string{"<<", "[", "(", ")", "]", ">>", "<", ">"} {
+			out = append(out, fault{Kind: "delim-add", Ordinal: si.ordinal, Site: si.ordinal % 3, Value: d + " "})
+		}
+		out = append(out, fault{Kind: "drop", Ordinal: si.ordinal}, fault{Kind: "dup", Ordinal: si.ordinal})
+		if si.stream {
+			for s := 0; s < 3; s++ {
+				out = append(out, fault{Kind: "data-flip", Ordinal: si.ordinal, Site: s*31 + 1})
+			}
+			out = append(out, fault{Kind: "data-trunc", Ordinal: si.ordinal, Site: si.dataLen / 2}, fault{Kind: "data-trunc", Ordinal: si.ordinal, Site: 1})
+			for _, v := range append(numValues, fmt.Sprintf("%d 0 R", si.num), "9999 0 R", "(x)", "-5") {
+				out = append(out, fault{Kind: "length", Ordinal: si.ordinal, Value: v})
+			}
+		}
+	}
+	for x := 0; x < nx; x++ {
+		for s := 0; s < 4; s++ {
+			for _, v := range []string{"0", "5", "2147483648", "9223372036854775807", fmt.Sprint(len(data) - 3)} {
+				out = append(out, fault{Kind: "xref-entry", Ordinal: x, Site: s, Value: v})
+			}
+		}
+		for _, v := range []string{"0,0,0", "-1,4,2", "1,-4,2", "1,0,0", "9,9,9", "1,2147483648,2", "0,4,2", "1,4,9223372036854775807"} {
+			out = append(out, fault{Kind: "xref-w", Ordinal: x, Value: v})
+		}
+		for _, v := range []string{"0", "-1", "5", "2147483648", "9223372036854775807"} {
+			out = append(out, fault{Kind: "xref-prev", Ordinal: x, Value: v}, fault{Kind: "xref-size", Ordinal: x, Value: v})
+		}
+		for _, v := range []string{"/Root 9999 0 R", "/Root 0 0 R", "", "/Root (x)", "/Root << >>"} {
+			out = append(out, fault{Kind: "xref-trailer", Ordinal: x, Value: v})
+		}
+	}
+	// truncation at token boundaries (white space positions), evenly sampled
+	var ws []int
+	for i, b := range data {
+		if b == ' ' || b == '\n' || b == '\r' {
+			ws = append(ws, i)
+		}
+	}
+	step := max(1, len(ws)/120)
+	for i := 0; i < len(ws); i += step {
+		out = append(out, fault{Kind: "truncate", Site: ws[i]})
+	}
+	for _, rt := range []string{"/Index [=>/Index [5 ", "/Kids [=>/Kids [1 0 R ", "/Count =>/Count 99999999", "/N =>/N 99999999 /X ", "/First =>/First 99999999 /X ", "/Columns =>/Columns 0 /X ", "/Columns =>/Columns 2147483648 /X ", "/Colors =>/Colors -1 /X ", "/Predictor =>/Predictor 99 /X ", "startxref\n=>startxref\n9", "obj\n=>obj\n<< /A "} {
+		for s := 0; s < 2; s++ {
+			out = append(out, fault{Kind: "replace-text", Site: s, Value: rt})
+		}
+	}
+	return out
+}
+
+// ---- XLSX / HTML / raw parsers ------------------------------------------------
+
+func runBytes(c *hx.Ctx, k kase, ext string, data []byte, tag string) {
+	path := filepath.Join(c.OutDir, "c02-"+tag+ext)
+	os.WriteFile(path, data, 0o644)
+	defer os.Remove(path)
+	exercise(c, k, path, data)
+	if ext == ".html" {
+		c.Guard("C02/html-FromHTMLString", k, 10, func() {
+			e := tabula.FromHTMLString(string(data))
+			e.Text()
+			e.ToMarkdown()
+			e.Fragments()
+			e.IsCharacterLevel()
+			e.IsMultiColumn()
+			e.Analyze()
+		})
+	}
+	c.Case(fmt.Sprint(k.Format, k.Seed, k.Faults), true)
+}
+
+func xlsxBase(r *hx.Rng) []writers.Member {
+	v := "hello"
+	wb := writers.XWorkbook{
+		Shared: []writers.XSI{{Plain: "s0"}, {Runs: []string{"a", "b"}}},
+		Sheets: []writers.XSheet{{Name: "S1", Path: "worksheets/sheet1.xml", RID: "rId1", Rows: []writers.XRow{
+			{R: 1, Cells: []writers.XCell{{Ref: "A1", T: "s", V: "0", HasV: true}, {Ref: "B1", V: "42", HasV: true}}},
+			{R: 2, Cells: []writers.XCell{{Ref: "A2", T: "inlineStr", Is: &v}, {Ref: "C2", T: "b", V: "1", HasV: true}}},
+		}, Merges: []string{"A1:B2"}}},
+	}
+	return writers.XLSXMembers(wb)
+}
+
+var attrNumRe = regexp.MustCompile(`(r|ref|count|uniqueCount|sheetId)="([A-Z]*)(\d+)([:A-Z0-9]*)"`)
+
+func xlsxFaults(c *hx.Ctx, seed uint64, budget int) {
+	r := hx.NewRng(seed)
+	base := xlsxBase(r)
+	n := 0
+	emit := func(ms []writers.Member, f fault) {
+		if n >= budget {
+			return
+		}
+		n++
+		k := kase{Format: "xlsx", Seed: seed, Faults: []fault{f}}
+		runBytes(c, k, ".xlsx", writers.Zip(ms), "x")
+		c.Count("xlsx-" + f.Kind)
+	}
+	for mi, m := range base {
+		// numeric attributes -> hostile values
+		sites := attrNumRe.FindAllSubmatchIndex(m.Data, -1)
+		for si, s := range sites {
+			for _, v := range []string{"0", "-1", "2147483648", "1048576", "9223372036854775807", "99999999"} {
+				ms := append([]writers.Member(nil), base...)
+				d := append([]byte(nil), m.Data[:s[6]]...)
+				d = append(d, v...)
+				d = append(d, m.Data[s[7]:]...)
+				ms[mi] = writers.Member{Name: m.Name, Data: d}
+				emit(ms, fault{Kind: "number", Ordinal: mi, Site: si, Value: v})
+			}
+		}
+		// huge column reference
+		if strings.Contains(m.Name, "sheet1") {
+			for _, ref := range []string{"XFD1048576", "ZZZZZZ1", "A99999999", "AAAAAAAAAAAAAAAAAAAA1"} {
+				ms := append([]writers.Member(nil), base...)
+				ms[mi] = writers.Member{Name: m.Name, Data: bytes.Replace(m.Data, []byte(`r="B1"`), []byte(`r="`+ref+`"`), 1)}
+				emit(ms, fault{Kind: "cellref", Ordinal: mi, Value: ref})
+				ms2 := append([]writers.Member(nil), base...)
+				ms2[mi] = writers.Member{Name: m.Name, Data: bytes.Replace(m.Data, []byte(`ref="A1:B2"`), []byte(`ref="A1:`+ref+`"`), 1)}
+				emit(ms2, fault{Kind: "mergeref", Ordinal: mi, Value: ref})
+			}
+		}
+		// drop / duplicate member, truncate member, unbalance a tag
+		ms := append([]writers.Member(nil), base[:mi]...)
+		ms = append(ms, base[mi+1:]...)
+		emit(ms, fault{Kind: "drop", Ordinal: mi})
+		ms = append(append([]writers.Member(nil), base...), m)
+		emit(ms, fault{Kind: "dup", Ordinal: mi})
+		for _, cut := range []int{len(m.Data) / 2, len(m.Data) - 3, 1} {
+			ms = append([]writers.Member(nil), base...)
+			ms[mi] = writers.Member{Name: m.Name, Data: m.Data[:max(0, cut)]}
+			emit(ms, fault{Kind: "data-trunc", Ordinal: mi, Site: cut})
+		}
+		ms = append([]writers.Member(nil), base...)
+		ms[mi] = writers.Member{Name: m.Name, Data: bytes.Replace(m.Data, []byte("</"), []byte("<"), 1)}
+		emit(ms, fault{Kind: "delim", Ordinal: mi})
+	}
+	// whole-archive damage
+	z := writers.Zip(base)
+	for i := 0; i < 40 && n < budget; i++ {
+		d := append([]byte(nil), z...)
+		d[r.Intn(len(d))] ^= byte(1 << uint(r.Intn(8)))
+		n++
+		runBytes(c, kase{Format: "xlsx", Seed: seed, Faults: []fault{{Kind: "byte", Site: i}}}, ".xlsx", d, "x")
+		c.Count("xlsx-byte")
+	}
+	for _, cut := range []int{len(z) / 2, len(z) - 10, 30} {
+		n++
+		runBytes(c, kase{Format: "xlsx", Seed: seed, Faults: []fault{{Kind: "truncate", Site: cut}}}, ".xlsx", z[:cut], "x")
+		c.Count("xlsx-truncate")
+	}
+}
+
+func htmlFaults(c *hx.Ctx, seed uint64, budget int) {
+	r := hx.NewRng(seed)
+	base := `<!DOCTYPE html><html><head><title>T</title><style>p{}</style></head><body><nav class="menu"><a href="#">x</a></nav><h1>H &amp; one</h1><p>para <b>bold</b></p><ul><li>a<ul><li>b</li></ul></li></ul><table><tr><th colspan="2">h</th></tr><tr><td rowspan="2">1</td><td>2</td></tr></table><pre>code</pre></body></html>`
+	n := 0
+	for cut := 0; cut < len(base) && n < budget; cut += max(1, len(base)/60) {
+		n++
+		runBytes(c, kase{Format: "html", Seed: seed, Faults: []fault{{Kind: "truncate", Site: cut}}}, ".html", []byte(base[:cut]), "h")
+		c.Count("html-truncate")
+	}
+	for _, v := range []string{"0", "-1", "2147483648", "9223372036854775807", "100000"} {
+		for _, attr := range []string{`colspan="2"`, `rowspan="2"`} {
+			name := attr[:strings.Index(attr, "=")]
+			d := strings.Replace(base, attr, name+`="`+v+`"`, 1)
+			n++
+			runBytes(c, kase{Format: "html", Seed: seed, Faults: []fault{{Kind: "number", Value: name + "=" + v}}}, ".html", []byte(d), "h")
+			c.Count("html-number")
+		}
+	}
+	for _, depth := range []int{1000, 20000} {
+		d := "<!DOCTYPE html><html><body>" + strings.Repeat("<div><ul><li>", depth) + "deep" + "</body></html>"
+		n++
+		runBytes(c, kase{Format: "html", Seed: seed, Faults: []fault{{Kind: "nesting", Site: depth}}}, ".html", []byte(d), "h")
+		c.Count("html-nesting")
+	}
+	for i := 0; i < budget/3; i++ {
+		d := []byte(base)
+		for k := r.Range(1, 4); k > 0; k-- {
+			d[r.Intn(len(d))] = hx.Pick(r, []byte{'<', '>', '&', '"', 0, 0xff, '/'})
+		}
+		runBytes(c, kase{Format: "html", Seed: seed, Faults: []fault{{Kind: "byte", Site: i}}}, ".html", d, "h")
+		c.Count("html-byte")
+	}
+}
+
+// rawParsers feeds hostile byte strings straight to the low-level parsers.
+func rawParsers(c *hx.Ctx, seed uint64, n int) {
+	r := hx.NewRng(seed)
+	frags := []string{"<<", ">>", "[", "]", "(", ")", "<", ">", "/A", "1", "0", "R", "obj", "endobj", "stream\n", "endstream", " ", "%c\n", "true", "null", "9223372036854775807", "-", ".", "#", "\\", "BT", "ET", "Tj", "TJ", "'", "\"", "BI", "ID", "EI", "beginbfchar", "endbfchar", "beginbfrange", "endbfrange", "<0041>", "begincodespacerange", "endcodespacerange", "1 "}
+	for i := 0; i < n; i++ {
+		var b strings.Builder
+		for k := r.Range(1, 12); k > 0; k-- {
+			b.WriteString(hx.Pick(r, frags))
+			if r.Bool() {
+				b.WriteByte(' ')
+			}
+		}
+		s := b.String()
+		k := map[string]interface{}{"format": "raw", "hex": hx.HexS(s)}
+		c.Current(k)
+		c.Guard("C02/raw-core-parser", k, 5, func() {
+			p := core.NewParser(strings.NewReader(s))
+			p.ParseObject()
+			p2 := core.NewParser(strings.NewReader(s))
+			p2.ParseIndirectObject()
+		})
+		c.Guard("C02/raw-contentstream", k, 5, func() { contentstream.NewParser([]byte(s)).Parse() })
+		c.Guard("C02/raw-cmap", k, 5, func() {
+			cm, err := font.ParseToUnicodeCMap(&core.Stream{Dict: core.Dict{}, Data: []byte(s)})
+			if err == nil && cm != nil {
+				cm.LookupString([]byte(s))
+			}
+		})
+		c.Rep.OracleChecks += 3
+		c.Count("raw")
+		c.Case(s, true)
+	}
+}
+
+func Run(c *hx.Ctx) {
+	c.Rep.Rule = "valid documents from the harness writers (PDF in random physical layouts, XLSX, HTML) x every single fault of the catalogue at every site (numbers -> 0,-1,2^31,2^63-1; references -> self/root/missing; delimiters removed/added; objects/members dropped/duplicated; stream data flipped/truncated; /Length, xref entries, /W, /Prev, /Size, trailer; truncation at token boundaries; targeted field rewrites) + sampled double faults + byte mutation + hostile token soup into the raw parsers; every case runs 5-6 public entry points under a 10 s deadline and a 3 GiB heap limit; every case is non-trivial"
+	ndocs := c.N(4, 30)
+	perDoc := c.N(450, 100000)
+	for d := 0; d < ndocs; d++ {
+		seed := c.Seed*1000 + uint64(d)
+		doc, lay := docFor(seed)
+		cat := pdfCatalogue(doc, lay)
+		c.Count(fmt.Sprintf("pdf-catalogue-size=%d", len(cat)/100*100))
+		step := 1
+		if len(cat) > perDoc {
+			step = len(cat)/perDoc + 1
+		}
+		for i := d % step; i < len(cat); i += step {
+			runPDF(c, kase{Format: "pdf", Doc: d, Seed: seed, Faults: []fault{cat[i]}, Layout: lay}, "p")
+		}
+		// sampled double faults
+		r := hx.NewRng(seed ^ 0xabcdef)
+		for i := 0; i < c.N(60, 1500); i++ {
+			runPDF(c, kase{Format: "pdf", Doc: d, Seed: seed, Faults: []fault{hx.Pick(r, cat), hx.Pick(r, cat)}, Layout: lay}, "p")
+		}
+	}
+	xlsxFaults(c, c.Seed, c.N(250, 5000))
+	htmlFaults(c, c.Seed, c.N(120, 1500))
+	rawParsers(c, c.Seed, c.N(1500, 60000))
+}
+
+func Replay(c *hx.Ctx, m map[string]interface{}) {
+	if m["format"] == "raw" {
+		c.Note("raw parser case: feed the hex string to core.NewParser / contentstream.NewParser / font.ParseToUnicodeCMap")
+		return
+	}
+	var k kase
+	hx.Remarshal(m, &k)
+	if k.Format == "pdf" {
+		runPDF(c, k, "replay")
+	}
+}
